@@ -6,8 +6,8 @@ import codec
 
 MODEL_TARGETS = ["model/Ser.vo", "model/De.vo", "spec/Denote.vo", "spec/Encoding.vo"]
 COQ_TARGETS = ["props/C01.vo"]
-THEOREMS = [("C01", ["C01_any", "C01_any_default", "C01_node", "C01_encoding_injective", "C01_encoding_prefix_free"])]
-PROOF_FILES = ["proofs/RoundTripProofs.v", "proofs/SerProofs.v", "proofs/DeProofs.v", "proofs/VarintProofs.v", "props/C01.v"]
+THEOREMS = [("C01", ["C01_any", "C01_any_default", "C01_node", "C01_encoding_injective", "C01_encoding_prefix_free", "C01_typed"])]
+PROOF_FILES = ["proofs/RoundTripProofs.v", "proofs/SerProofs.v", "proofs/DeProofs.v", "proofs/VarintProofs.v", "props/C01.v", "proofs/RoundTripTyped.v", "proofs/DS1.v", "proofs/DS2.v", "proofs/DS3.v", "proofs/DS4.v", "proofs/DS5.v", "proofs/DS6.v", "proofs/DS7.v"]
 TRUSTED_BASE = [
     "Coq 8.16.1 kernel; no axioms (Print Assumptions: closed)",
     "spec/{AvroValue,Encoding,Denote,Wf}.v written from the Avro specification: values, conformance, the encoding, the canonical presentation `present` (union branches by reported name), the expected callback traces dval_any / dval_typed",
@@ -18,7 +18,7 @@ TRUSTED_BASE = [
 ASSUMPTIONS = [
     "schema_wf (spec/Wf.v): keys in range, union branches are not unions and pairwise distinct in the name the deserializer reports, distinct field names / symbols. This excludes unions with two duration branches, which the specification allows: known finding KF1 (the frozen schema keeps no name for a duration)",
     "values within the limits: decimals |unscaled| < 2^96 and scale <= 28 (rust_decimal), lengths and counts < 2^63, configured max_seq_size and depth budget",
-    "proved for the dynamically typed consumer (deserialize_any); typed targets and ordinary Rust types are decided by the correspondence run and the native round trip of the type family",
+    "proved for the dynamically typed consumer (C01_any) and for the typed target of every node kind (C01_typed: struct per record, enum by branch name, Option, seq, map, unit-variant enum, duration triple), slice input; reader input follows with C11_de; concrete derived Rust types (serde's derive output) are exercised natively by the type family",
 ]
 
 def borrowed_ok(res, inp):
